@@ -2143,7 +2143,7 @@ static size_t ZSTD_decompressContinueStream(
         size_t const dstSize = isSkipFrame ? 0 : (size_t)(oend - *op);
         size_t const decodedSize = ZSTD_decompressContinue(zds, *op, dstSize, src, srcSize);
         FORWARD_IF_ERROR(decodedSize, "");
-        *op += decodedSize;
+        if (decodedSize != 0) *op += decodedSize;   /* *op may be NULL for an empty destination : no NULL + 0 */
         /* Flushing is not needed. */
         zds->streamStage = zdss_read;
         assert(*op <= oend);
